@@ -19,6 +19,10 @@ def main() -> int:
     from checks import common
 
     common.reexec_if_needed()
+    # locks created by library code are simulated from the first import on (see simworld/locks.py)
+    from simworld import locks
+
+    locks.install_globally(os.path.join(REPO_SRC, "dpapi_ng") + os.sep)
     if len(sys.argv) < 2:
         print("usage: check <property id | selftest ...> [options]")
         return 2
